@@ -617,6 +617,16 @@ def run(ctx):
     txqueue.queue_shape(ctx, r13)
     r13.floor(15)
 
+    # ---- R14 which commands follow a completed task / a start / a resume -------
+    r14 = ctx.rule('R14', 'the controllers turn start, resume and every '
+                   'completed task into the prescribed commands (start '
+                   'tasks, IDLE tasks, unprocessed completed tasks, one '
+                   'command per routed name, unknown names refused)',
+                   'DT + AGREE')
+    from mstatic.rules import cmdcalc
+    cmdcalc.next_commands(ctx, r14)
+    r14.floor(20)
+
     # ---- R11 explicit raises escaping engine entry points --------------------------------
     r11 = ctx.rule('R11', 'explicit raises of undeclared error types that '
                    'can escape an engine entry point equal the frozen '
